@@ -7,6 +7,8 @@ import (
 	"go/types"
 	"reflect"
 	"strings"
+
+	"golang.org/x/tools/go/ssa"
 )
 
 type xmlTag struct {
@@ -372,6 +374,52 @@ func ruleC20(c *Ctx) {
 		c.count("C20-R1/fields", n)
 		c.floor("C20-R1/fields", 6)
 	}
+	// R4: the compared fields of the result are exactly what was decoded — nobody assigns them afterwards
+	c.rule("C20-R4", "header fields (ID, InResponseTo, Destination, Version, Issuer) of Response / LogoutResponse / UnverifiedBaseResponse are written by the XML decoder only: no store to them anywhere in library scope (positive control must fire)")
+	hdr := map[string]bool{"ID": true, "InResponseTo": true, "Destination": true, "Version": true, "Issuer": true}
+	scanHdr := func(fns []*ssa.Function, report bool) int {
+		n := 0
+		for _, f := range fns {
+			for _, b := range f.Blocks {
+				for _, in := range b.Instrs {
+					st, ok := in.(*ssa.Store)
+					if !ok {
+						continue
+					}
+					fa, ok := st.Addr.(*ssa.FieldAddr)
+					if !ok {
+						continue
+					}
+					owner, _ := derefStruct(fa.X.Type())
+					if owner == nil {
+						continue
+					}
+					on := typeStr(owner)
+					if on != "types.Response" && on != "types.LogoutResponse" && on != "types.UnverifiedBaseResponse" {
+						continue
+					}
+					fn := owner.Underlying().(*types.Struct).Field(fa.Field).Name()
+					if !hdr[fn] {
+						continue
+					}
+					n++
+					if report {
+						c.bad("C20-R4", shortFn(f), "store "+on+"."+fn, c.P.InstrPos(st), "library code assigns "+on+"."+fn+" after decoding: full validation can return a value the pre-decode never saw")
+					}
+				}
+			}
+		}
+		return n
+	}
+	if scanHdr(c.P.LibFns, true) == 0 {
+		c.ok("C20-R4", "library", "no store to decoded header fields", "-", fmt.Sprintf("%d library functions scanned", len(c.P.LibFns)))
+	}
+	fired := scanHdr(controlFns(c, "hdrwrite"), false)
+	c.Controls["C20-R4 hdrwrite"] = fired > 0
+	if fired == 0 {
+		c.bad("C20-R4", "controls/hdrwrite", "positive control", "-", "matcher did not flag the control that rewrites Response.Issuer")
+	}
+
 	// R2 + R3
 	type pd struct{ fn, typ string }
 	for _, p := range []pd{{"DecodeUnverifiedBaseResponse", "*types.UnverifiedBaseResponse"}, {"DecodeUnverifiedLogoutResponse", "*types.LogoutResponse"}} {
